@@ -451,12 +451,25 @@ def rule_join(ctx):
                          "(task_done() on every path out of the iteration, the failing write included) - otherwise a reply that cannot be written leaves the dispatcher "
                          "in join() for ever, with the session's table entry, listener and slots")
     srv = p.trees["server.py"]
+    # names that hold a queue: assigned from `<...>Queue(...)`, or the parameter such a name is passed to
+    qnames = {t.id for a in ast.walk(srv) if isinstance(a, ast.Assign) and isinstance(a.value, ast.Call) and (dotted(a.value.func) or "").endswith("Queue")
+              for t in a.targets if isinstance(t, ast.Name)}
+    S = p.methods("Server")
+    for c in ast.walk(srv):
+        if isinstance(c, ast.Call) and is_self_call(c, set(S)):
+            params = [a.arg for a in S[c.func.attr].args.args][1:]
+            for k, a in enumerate(c.args):
+                if isinstance(a, ast.Name) and a.id in qnames and k < len(params):
+                    qnames.add(params[k])
+
+    def is_queue(e):
+        return src(e) in qnames or "queue" in src(e).lower()
     joins = [c for c in ast.walk(srv) if isinstance(c, ast.Call) and is_method_call(c, "join") and not c.args and isinstance(p.parent.get(c), ast.Await)
-             and "queue" in src(c.func.value).lower()]
+             and is_queue(c.func.value)]
     consumers = []
     for fn in ast.walk(srv):
         if isinstance(fn, ast.AsyncFunctionDef):
-            gets = [c for c in walk_no_nested(fn) if isinstance(c, ast.Call) and is_method_call(c, "get") and not c.args and "queue" in src(c.func.value).lower()]
+            gets = [c for c in walk_no_nested(fn) if isinstance(c, ast.Call) and is_method_call(c, "get") and not c.args and is_queue(c.func.value)]
             if gets:
                 consumers.append((fn, gets))
     if not joins:
@@ -497,4 +510,20 @@ def rule_join(ctx):
                f"`await {src(joins[0].func.value)}.join()` at line {joins[0].lineno} never returns - the session is never cleaned up", construct=f"join:{fn.name}:item not marked done")
 
 
-RULES = [rule_join, rule_fields, rule_detach, rule_replace, rule_tasks, rule_close, rule_file, rule_timeout_ends, rule_open_factory, rule_borrowed_r4, rule_forget_closed]
+def rule_close_cannot_fail(ctx):
+    p = ctx.p
+    ctx.rule("C12.NOFAIL", "closing a stream cannot fail: StreamIO.close() does nothing before `writer.close()` (the dispatcher's clean-up closes the control stream BEFORE it returns "
+                           "the slots and leaves the table - a close() that raises on a reset socket skips all of that)")
+    cl = p.method("StreamIO", "close")
+    body = [s_ for s_ in cl.body if not (isinstance(s_, ast.Expr) and isinstance(s_.value, ast.Constant))]
+    closes = [k for k, s_ in enumerate(body) if isinstance(s_, ast.Expr) and isinstance(s_.value, ast.Call) and is_method_call(s_.value, "close") and src(s_.value.func.value) == "self.writer"]
+    before = [x for s_ in (body[:closes[0]] if closes else body) for x in ast.walk(s_) if isinstance(x, (ast.Call, ast.Await, ast.Raise))]
+    ctx.ob("C12.NOFAIL", cl, "StreamIO.close() calls writer.close() first", bool(closes) and not before,
+           f"StreamIO.close() runs `{src(before[0])[:50] if before else ''}` before (or instead of) `writer.close()`: on a connection the peer has reset this raises inside the "
+           "dispatcher's `finally`, and the session's slots, table entry and listener are never released", construct="close:work before writer.close()")
+    for sub in [c for c in p.classes if c != "StreamIO" and "StreamIO" in p.mro(c)]:
+        over = p.methods(sub).get("close")
+        ctx.ob("C12.NOFAIL", over if over is not None else p.cls(sub), f"{sub} does not override close()", over is None, f"{sub} overrides close()", construct=f"close:{sub} overrides")
+
+
+RULES = [rule_join, rule_close_cannot_fail, rule_fields, rule_detach, rule_replace, rule_tasks, rule_close, rule_file, rule_timeout_ends, rule_open_factory, rule_borrowed_r4, rule_forget_closed]
